@@ -71,11 +71,39 @@ def make_summaries(side, locales, fns):
             raise Unsupported("as_str of %r" % (l,))
         return z3.StringVal(l[1])
 
+    def char_class(name):
+        rng = lambda a, b: z3.Range(z3.StringVal(a), z3.StringVal(b))
+        if name.endswith("is_alphanumeric") or name.endswith("is_ascii_alphanumeric"):
+            return z3.Union(rng("0", "9"), rng("a", "z"), rng("A", "Z"))
+        if name.endswith("is_alphabetic") or name.endswith("is_ascii_alphabetic"):
+            return z3.Union(rng("a", "z"), rng("A", "Z"))
+        if name.endswith("is_numeric") or name.endswith("is_ascii_digit"):
+            return rng("0", "9")
+        if name.endswith("is_whitespace") or name.endswith("is_ascii_whitespace"):
+            return z3.Union(*[z3.Re(z3.StringVal(c)) for c in " \t\n\r"])
+        raise Unsupported("character predicate %s" % name)
+
     def s_starts_with(ex, st, args, callee):
         s, p = args
+        if isinstance(p, tuple) and p[0] == "fnitem":
+            # ASCII approximation of the char predicate (non-ASCII characters are treated as not in the class)
+            anyc = z3.Star(z3.AllChar(z3.ReSort(z3.StringSort())))
+            return z3.InRe(s, z3.Concat(char_class(p[1]), anyc))
         if isinstance(p, tuple) and p[0] == "char":
             p = z3.StringVal(p[1])
         return z3.PrefixOf(p, s)
+
+    def s_trim_start_str(ex, st, args, callee):
+        # trim_start_matches(&str): remove the pattern repeatedly (unrolled: at most 4 repetitions, stated bound)
+        s, p = args
+        r = side.fresh("trimmed_by_str")
+        k = side.fresh("reps")
+        reps = [z3.StringVal("")]
+        for _ in range(4):
+            reps.append(z3.Concat(reps[-1], p))
+        side.cons.append(z3.If(z3.Length(p) == 0, r == s,
+                               z3.And(z3.Or([s == z3.Concat(x, r) for x in reps]), z3.Not(z3.PrefixOf(p, r)))))
+        return r
 
     def s_ends_with(ex, st, args, callee):
         s, p = args
@@ -160,6 +188,7 @@ def make_summaries(side, locales, fns):
         (r"<L as FromStr>::from_str$", s_from_str),
         (r"^Result::<L, .*>::ok$", s_result_ok),
         (r"trim_start_matches::<char>$", s_trim_start),
+        (r"trim_start_matches::<&str>$", s_trim_start_str),
         (r"strip_prefix::<&str>$", s_strip_prefix),
         (r"as Try>::branch$", s_branch),
         (r"as FromResidual<.*>>::from_residual$", s_from_residual),
@@ -178,6 +207,8 @@ def make_summaries(side, locales, fns):
 
 class ClosureAwareExecutor(mirsmt.Executor):
     def operand(self, st, o):
+        if o[0] == "const" and re.match(r"^char::methods::<impl char>::\w+$", o[1]):
+            return ("fnitem", o[1])
         if o[0] == "const":
             m = re.match(r"^ZeroSized: (\{closure@[^}]*\})$", o[1])
             if m:
@@ -366,6 +397,39 @@ def run(tier, seed):
         else:
             print("ENCODER-MISMATCH property=C14 model %s, real result %s (%s)" % (m, real, path))
             inconclusive.append("model did not reproduce natively")
+    # ---- second sentence, kernel level: match_path_segments / construct_path_segments / PathBuilder from MIR
+    import c14b
+    rewrite_runs = []
+    try:
+        for n in ((2, 3) if tier == "quick" else (1, 2, 3, 4, 5)):
+            rewrite_runs += c14b.decide(mir, n, 60000 if tier == "quick" else 300000)
+    except Unsupported as e:
+        inconclusive.append("URL rewriting kernels: UNSUPPORTED %s" % e)
+    for r in rewrite_runs:
+        if not r["violation"]:
+            continue
+        v = r["violation"]
+        sig = {"engine": "M", "fn": "localize_path", "witness": v["what"].split(",")[0][:40]}
+        k = report.matches(sig, known, prop)
+        if k is not None:
+            print("KNOWN-FINDING: property=C14 %s" % k.get("description", k["id"]))
+            continue
+        try:
+            path_, there, back = c14b.native(r["table"], v["segments"])
+            replayed += 1
+        except Exception as e:
+            inconclusive.append("native replay of the rewriting failed: %s" % str(e)[-300:])
+            continue
+        rp = report.write_replay(prop, "localize_path_table%d" % r["table"], {"model": v, "table": r["table"], "path": path_, "A_to_B": there, "B_to_A": back, "signature": sig,
+                                 "how_to_replay": "leptos_i18n_router::verif_hooks::localize_path(path, &A, &B) then (.., &B, &A) in the replay crate"})
+        if back != 'Some("%s")' % path_:
+            print("VIOLATION property=C14 replay=%s" % rp)
+            print("  switching the locale of %r and back gives %s (via %s): %s" % (path_, back, there, v["what"]))
+            violations += 1
+            break
+        else:
+            print("ENCODER-MISMATCH property=C14 rewriting model %s did not reproduce natively (%s -> %s)" % (v, there, back))
+            inconclusive.append("rewriting model did not reproduce natively")
     wall = time.time() - t0
     report.write_evidence(prop, tier, seed, "model_checking", {
         "evaluations": len(all_q), "distinct_nontrivial": max(2, len({(tuple(q["locales"]), q["locale"]) for q in all_q})),
@@ -374,9 +438,14 @@ def run(tier, seed):
         "queries": len(all_q), "queries_unsat": sum(1 for q in all_q if q["status"] == "unsat"), "queries_sat": len(sat),
         "vacuity_witnesses": witnesses, "traces_validated_against_impl": replayed,
         "solver": "z3 %s strings" % z3.get_version_string(), "solver_s": round(solver_s, 3),
-        "functions_encoded": ["leptos_i18n_router::routing::get_locale_from_path + closure(s), from rustc MIR regenerated this run"],
+        "functions_encoded": ["leptos_i18n_router::routing::get_locale_from_path + closure(s), from rustc MIR regenerated this run",
+                              "match_path_segments, construct_path_segments, PathBuilder::push (second sentence, kernel level)"],
+        "url_rewriting": {"runs": [{k: v for k, v in r.items() if k not in ("mir_fns", "calls")} for r in rewrite_runs],
+                          "property": "for 6 route shapes (static / param / optional / splat / unit / empty static, localized statics) and every path of n symbolic non-empty slash-free segments that matches locale A's segments: the path rewritten for locale B has the same number of segments, matches B's segments, and rewriting it back gives the original segments",
+                          "mir_calls_summarised": sorted({c for r in rewrite_runs for c in r.get("calls", [])}),
+                          "outside": "get_new_path itself (Location signals, Mutex<HashMap> of route segments, query string and fragment), split of the path string into segments, match_nested / generate_routes"},
         "mir_calls_summarised": sorted(calls),
-        "bounds": "|path| <= %d, |base_path| <= %d characters, any characters; locale sets %s; path assumed to lie under the base path by whole segments. Outside: longer strings; the URL rewriting half of C14 (get_new_path / localize_path / match_nested go through leptos signals and leptos_router)." % (max_path, max_base, LOCALE_SETS),
+        "bounds": "|path| <= %d, |base_path| <= %d characters, any characters; locale sets %s; path assumed to lie under the base path by whole segments. Outside: longer strings." % (max_path, max_base, LOCALE_SETS),
         "inconclusive": inconclusive,
     }, wall, [
         "std summaries: trim_start_matches('/'), strip_prefix, starts_with, ends_with, is_empty, str ==, Option::is_some_and, Try::branch/from_residual, slice iter/copied/find unrolled over the locale list; any other call aborts the translation (inconclusive)",
